@@ -30,6 +30,8 @@
 #include <photon/common/iovector.h>
 #include <photon/common/timeout.h>
 #include <photon/common/stream.h>
+#include <photon/thread/stack-allocator.h>
+#include <sys/mman.h>
 #include <unordered_map>
 #include <new>
 
@@ -399,6 +401,26 @@ static void sink(uint32_t id, uint64_t a, uint64_t b) {
     }
 }
 
+// ---------------------------------------------------------------- thread stacks
+// Caller threads (STACK bytes) keep photon's default allocator: posix_memalign/free, so ASan sees a dead caller's stack as freed
+// heap. The Skeleton's thread pool asks for 8 MB per worker; through malloc that is extremely slow under ASan (shadow poisoning,
+// quarantine eviction, munmap for every worker), and those stacks are not the subject of this property: they come from a small
+// cache of mmap-ed regions instead.
+static std::vector<void*> g_big_stacks;
+static void* stack_alloc(void*, size_t size) {
+    if (size < (1u << 20)) return default_photon_thread_stack_alloc(nullptr, size);
+    if (size == DEFAULT_STACK_SIZE && !g_big_stacks.empty()) { void* p = g_big_stacks.back(); g_big_stacks.pop_back(); return p; }
+    void* p = mmap(nullptr, size, PROT_READ | PROT_WRITE, MAP_PRIVATE | MAP_ANONYMOUS | MAP_NORESERVE, -1, 0);
+    if (p == MAP_FAILED) return nullptr;
+    mprotect(p, 4096, PROT_NONE);
+    return p;
+}
+static void stack_dealloc(void*, void* ptr, size_t size) {
+    if (size < (1u << 20)) return default_photon_thread_stack_dealloc(nullptr, ptr, size);
+    if (size == DEFAULT_STACK_SIZE && g_big_stacks.size() < 64) { g_big_stacks.push_back(ptr); return; }
+    munmap(ptr, size);
+}
+
 // ---------------------------------------------------------------- access to the protected Stub::do_call
 struct StubAccess : public rpc::Stub { using rpc::Stub::do_call; };
 static int stub_call(rpc::Stub* s, rpc::FunctionID f, iovector* req, iovector* resp, Timeout tmo) {
@@ -475,7 +497,7 @@ static void do_one_call(Slot* s) {
 
     Timeout tmo;        // infinite
     if (tmo_us) tmo = Timeout(tmo_us);
-    else switch (r.below(3)) { case 0: break; case 1: tmo = Timeout(30000 * MS); break; default: tmo = Timeout(120000 * MS); }
+    else switch (r.below(3)) { case 0: break; case 1: tmo = Timeout(300000 * MS); break; default: tmo = Timeout(1200000 * MS); }
     uint64_t expiration = tmo.expiration();
     bool finite = expiration != (uint64_t)-1;
     // the adversary's pauses are placed relative to this caller's deadline
@@ -680,7 +702,7 @@ struct PeerB {
     Round* R = nullptr;
     End* ep = nullptr;
     vh::Rng rng{1};
-    struct Job { rpc::Header hdr; ReqHead h; Rec* rec; uint64_t ready_at; };
+    struct Job { rpc::Header hdr; ReqHead h; Rec* rec; uint64_t ready_at; uint64_t arrived; };
     std::vector<Job> jobs;
     condition_variable cv;
     bool reader_done = false, stop_flag = false, closed = false;
@@ -714,8 +736,8 @@ struct PeerB {
             Rec* rec = &g_recs[h.recidx];
             if (rec->tag != hdr.tag) vh::machinery_failure("tag seen by the tap differs from the tag parsed by the peer");
             if (h.fate == FT_DROP || h.fate == FT_TINY) continue;      // never answered
-            Job j{hdr, h, rec, 0};
             uint64_t now = photon::now;
+            Job j{hdr, h, rec, 0, now};
             switch (h.fate) {
             case FT_HOLD: j.ready_at = h.t1; break;
             case FT_LATE: j.ready_at = h.t2; break;
@@ -748,7 +770,7 @@ struct PeerB {
             if (--pieces <= 0) pieces = 1;
             if (pos < to) {
                 c_frag.add();
-                // benign pauses: far below every deadline a call that is answered can have (>= 30 s)
+                // benign pauses: far below every deadline a call that is answered can have (>= 300 s)
                 if (rng.chance(2, 3)) thread_yield(); else thread_usleep(rng.range(5, 1500));
             }
         }
@@ -855,6 +877,8 @@ struct PeerB {
                 continue;
             }
             size_t pick = order == 1 ? ready.back() : order == 2 ? ready.front() : ready[rng.below(ready.size())];
+            // no job is starved: whatever the order policy, an answer is at most ~200 ms late (deadlines of answered calls are >= 300 s)
+            if (jobs[ready.front()].ready_at + 200 * MS < now) pick = ready.front();
             Job j = jobs[pick];
             jobs.erase(jobs.begin() + pick);
             process(j);
@@ -1025,6 +1049,7 @@ int main(int argc, char** argv) {
     // return of the request's send; all others are benign and must be completely clean
     g_mode_name = vh::args().gets("mode", vh::args().exec % 8 == 3 ? "straddle" : vh::args().exec % 8 == 7 ? "early" : "benign");
     bool straddle = g_mode_name == "straddle", early = g_mode_name == "early";
+    set_photon_thread_stack_allocator({&stack_alloc, nullptr}, {&stack_dealloc, nullptr});
     if (photon::vcpu_init() < 0) vh::machinery_failure("vcpu_init failed");
     photon::verif::g_hooks.event = &sink;
     vh::arm_stalls(xr, {photon::verif::P_OOO_COLLECT}, false);
